@@ -5,6 +5,8 @@ SIM_WRAPS = ["coap_ticks", "close", "epoll_ctl", "epoll_wait", "recv", "send",
              "coap_socket_bind_udp", "coap_socket_connect_udp", "coap_socket_send", "coap_socket_recv",
              "coap_socket_bind_tcp", "coap_socket_connect_tcp1", "coap_socket_connect_tcp2", "coap_socket_accept_tcp"]
 SIM = dict(wraps=SIM_WRAPS, extra_sources=["sim/sim.cc"])
+ALLOC_WRAPS = ["coap_malloc_type", "coap_realloc_type", "coap_free_type"]
+SIM_ALLOC = dict(wraps=SIM_WRAPS + ALLOC_WRAPS, extra_sources=["sim/sim.cc", "sim/alloc.cc"])
 
 
 def enum(workers, total):
@@ -23,6 +25,15 @@ def fuzz(workers, runs, **kw):
 NOT_CLAIMED = {}
 
 PROPS = {
+    "C12": dict(
+        level="exploration",
+        technique="stateful simulation-based property testing: generated request / reference / async / observe / time-jump / teardown histories from up to 50 scripted peers against a libcoap server (and client) on a virtual network; event and handler log against a session model, typed-allocation table, ASan and LeakSanitizer as lifetime oracle",
+        level_text="Generated histories of 3..40 operations, session_timeout and max_idle_sessions from the tape, virtual time jumps around and across the session timeout, teardown wherever the history ends.",
+        level_note="Trusted base: sim/sim.cc, sim/alloc.cc (ld --wrap of coap_malloc_type/coap_realloc_type/coap_free_type), the session model in props/C12.cc. UDP sessions only here; TCP session teardown is exercised by C05/C08, DTLS by C19.",
+        quick=rc(12, 8000),
+        thorough=rc(14, 100000),
+        **SIM_ALLOC,
+    ),
     "C11": dict(
         level="exploration",
         technique="stateful simulation-based property testing: generated register / change / cancel / RST / withheld-ACK / handler-error / delete histories against a libcoap server on a virtual network; temporal invariants over the wire trace against a registration-entry model",
